@@ -522,6 +522,8 @@ def install():
         kids = gd["children"].get(r["name"], [])
         if gd["flags"][r["name"]]["conditional"]:
             ctx.count("conditional_completions")
+            if gd["flags"][r["name"]].get("terminal"):
+                ctx.count("conditional_completions_of_a_join")  # the join of one conditional is itself the next conditional
             # "cancelled up to but excluding the join": the resolution of this conditional must not cancel its own join
             for blk in ctx.world["meta"]["blocks"].get(r["gbase"], []):
                 if blk["cond"] == r["name"] and any(br.get("empty") for br in blk["branches"]):
